@@ -25,7 +25,14 @@ REQUEST_BUDGET_S = 5.0
 
 
 # ------------------------------------------------------------------ catalogue
+_REV = [False]
+
+
 def _ring(n):
+    """(i, successor of i) around the ring; reversed for the *_rev shapes so that the
+    link direction is opposite to the (name-sorted) load order as well"""
+    if _REV[0]:
+        return [(i, (i - 1) % n) for i in range(n)]
     return [(i, (i + 1) % n) for i in range(n)]
 
 
@@ -213,6 +220,20 @@ SHAPES = {
 }
 
 
+def _reversed(fn):
+    def g(n):
+        _REV[0] = True
+        try:
+            return fn(n)
+        finally:
+            _REV[0] = False
+    return g
+
+
+for _name in ("use", "extends_files", "submodule", "submodule_colon", "include", "pp_include", "pointer", "binding"):
+    SHAPES[_name + "_rev"] = _reversed(SHAPES[_name])
+
+
 def render(units, placement):
     """placement 'files': one unit per file; 'single': all Fortran units in one file."""
     files = {}
@@ -292,6 +313,37 @@ def run_case(job, acc: Acc):
                                         {"shape": shape, "n": n, "placement": placement, "file": rel}, "result", str(r["error"].get("message"))[:200], what=desc))
             else:
                 c09.check_result(s, "cycles", method, r["result"], None, {"shape": shape, "n": n, "placement": placement, "file": rel}, acc, tags)
+    # second pass: every file is edited on disk and saved, then edited in the buffer
+    # (re-parse, re-resolution of includes and links on an index that already has them)
+    for rel, text in sorted(files.items()):
+        if rel.endswith(".h"):
+            continue
+        path = os.path.join(sc.path, rel)
+        for phase in ("disk", "buffer"):
+            t1 = time.time()
+            new_text = text + ("\n! touched on disk\n" if phase == "disk" else "\n! touched in buffer\n\n")
+            if phase == "disk":
+                with open(path, "w") as fh:
+                    fh.write(new_text)
+                out = s.save(path)
+            else:
+                out = s.change(path, [{"text": new_text}])
+            transcript += out
+            if time.time() - t1 > REQUEST_BUDGET_S:
+                slow.append((phase + "_edit", rel))
+            for o in out:
+                if "id" in o and "method" not in o:
+                    acc.violation(Violation("cycles", {"family": "cycles", "method": phase + "_edit", "obs": "response_to_notification", **tags},
+                                            {"shape": shape, "n": n, "placement": placement}, None, str(o)[:200], what=desc))
+                if o.get("method") == "window/showMessage" and o["params"].get("type") == 1:
+                    acc.violation(Violation("cycles", {"family": "cycles", "method": phase + "_edit", "obs": "error_message", **tags},
+                                            {"shape": shape, "n": n, "placement": placement}, "no error message", o["params"]["message"][:200], what=f"{desc}: {o['params']['message'][:120]}"))
+        lines = text.split("\n")
+        for ln, line in enumerate(lines):
+            m = IDENT.search(line.split("!")[0])
+            if m:
+                c09.request_all(s, "cycles", path, ln, (m.start() + m.end()) // 2, acc, f"{desc}:{rel}(edited)", extra_tags=tags,
+                                methods=["textDocument/hover", "textDocument/definition", "textDocument/completion", "textDocument/references"])
     # still alive?
     r, _ = s.request("workspace/symbol", {"query": "zz_none"})
     if "result" not in r:
@@ -323,10 +375,10 @@ def main(ctx):
                 "unit per file); per workspace: start-up indexing, didOpen+didSave of every file, nine positional requests "
                 "at every identifier and after every '%', documentSymbol, workspace/symbol. Non-trivial: all; distinct by "
                 "(shape, length, placement); evaluations counts requests.")
-    ctx.assumptions = [f"time budget {REQUEST_BUDGET_S}s per request, 120 s per workspace (watchdog)",
+    ctx.assumptions = [f"time budget {REQUEST_BUDGET_S}s per request, 45 s per workspace (watchdog)",
                        "the recursion limit is the one the server sets itself (1000)"]
     jobs = [(sh, n, pl) for sh in SHAPES for n in range(1, nmax + 1) for pl in ("single", "files")]
-    acc = core.pmap(run_case, jobs, chunk=1, budget_s=120, on_timeout=on_timeout, label="C20")
+    acc = core.pmap(run_case, jobs, chunk=1, budget_s=45, on_timeout=on_timeout, label="C20")
     ctx.add_family("cycles", acc, shapes=len(SHAPES), max_length=nmax)
 
 
